@@ -1295,7 +1295,9 @@ def r_memory_only(ctx, rule='R-MEMORY-HINT'):
                     o = rv.get(key)
                     if isinstance(o, dict) and o.get('k') in ('copy', 'move') and any(e.get('n') == 'available_memory' for e in o['place']['p']):
                         reads.append((st['place'], st['span']))
-                if 'place' in rv and any(e.get('n') == 'available_memory' for e in rv['place']['p']):
+                if 'place' in rv and rv['k'] != 'discr' and any(e.get('n') == 'available_memory' for e in rv['place']['p']):
+                    # (reading only the discriminant -- `match opt.available_memory { Some(..) / None }` -- is the Some/None
+                    # test of the option, not a use of the hint's value)
                     reads.append((st['place'], st['span']))
             for dest, span in reads:
                 n += 1
@@ -1360,10 +1362,15 @@ def option_or_default(t):
     if t0[0] == 'call' and t0[1].endswith('::unwrap_or') and len(t0[2]) == 2:
         return t0[2][0], t0[2][1]
     if t0[0] == 'phi' and len(t0[2]) == 2:
-        some = [a for a in t0[2] if strip(a)[0] == 'field' and strip(a)[2] == '0' and strip(strip(a)[1])[0] == 'downcast' and strip(strip(a)[1])[2] == 'Some']
+        def uncast(a):
+            a = strip(a)
+            while a[0] == 'cast':
+                a = strip(a[2])
+            return a
+        some = [a for a in t0[2] if uncast(a)[0] == 'field' and uncast(a)[2] == '0' and strip(uncast(a)[1])[0] == 'downcast' and strip(uncast(a)[1])[2] == 'Some']
         other = [a for a in t0[2] if a not in some]
         if len(some) == 1 and len(other) == 1:
-            return strip(strip(some[0])[1])[1], other[0]
+            return strip(uncast(some[0])[1])[1], other[0]
     return None
 
 
